@@ -12,6 +12,19 @@ PLAN = dict(
          "out-of-range scalars; every encrypter / options / decoder-parameter object the API lets a caller keep is also "
          "driven through histories of 2-3 calls with different keys and passwords; every self-describing container (and the "
          "same followed by trailing octets) is also handed to every decoder of the library (refused or the same key); "
+         "c14.pbes also runs the option products the main grid leaves out - KDF identifier (PKCS#5 PBKDF2 / ShangMi PBKDF) x all "
+         "8 PRFs x scheme identifier (PBES2 / ShangMi PBES) x the way the encrypter is built (NewPBESEncrypter, "
+         "NewSMPBESEncrypterWithKDF, pkcs8.Opts literal around constructor-made or literal PBKDF2Opts) x a cut of 6 ciphers - and "
+         "parameter extremes (salt 1/127/128/256 octets x iteration counts 127/128/255/256/32768, scrypt N/r/p up to 256/127/128) "
+         "for PBKDF2, ShangMi PBKDF, scrypt and PBES1; wherever a PRF is the DEFAULT of its KDF identifier the reference writes "
+         "the container in both encodings (prf present / left out) and the library must open both; "
+         "c14.assembled: the honest containers of two keys A and B written by the library are taken apart and every mixture of "
+         "their parts re-encoded (SEC1 scalar / curve / point, PKCS#8 outer algorithm and curve / inner ECPrivateKey, the same "
+         "inside encrypted PKCS#8, SM9 key / master public key under either algorithm identifier, SM2 enveloped key symmetric "
+         "key / public key / encrypted scalar, CFCA encrypted key / certificate / password), same-curve and cross-curve pairs: "
+         "a decoder returns an error or the consistent key of the container's scalar ([d]G recomputed independently), the "
+         "protected containers always an error; which of two conflicting curve names wins and foreign SM9 master public keys "
+         "are counted as observations; "
          "c14.alias: every decoder of every container and key kind is run inside a caller history - container (and password) "
          "loaded into caller-owned buffers with dirty spare capacity, decoded twice (one key left untouched until the end), "
          "the buffers reused for the container of a second key and decoded again, then zeroised - with the known-key oracle "
@@ -31,6 +44,8 @@ PLAN = dict(
     + both("c14.tamper", _CFG, shards=(2, 8), floor=20)
     + both("c14.range", _CFG + ["ia32"], shards=(1, 4), floor=20)
     + both("c14.interop", _CFG, shards=(1, 1), floor=10)
+    # containers re-encoded from the parts of two honest containers (redundant information in conflict)
+    + both("c14.assembled", _CFG + ["ia32"], shards=(2, 4), floor=50)
     # the caller's buffers (container, password, returned slices) overwritten / reused after every decoder and encoder
     + both("c14.alias", ["avx2", "purego"], shards=(2, 8), floor=100)
     # every implementation tier of SM4 (avx2 / avx / sse / aesni1 / noclmul / noaes / purego), SM3 (+ scalar) and of the
@@ -62,7 +77,12 @@ CLAIM = dict(
          "each container judged as if written by a fresh object and against the other passwords of its history; "
          "scalars 0, n-1 (SM2), n, n+1, all-ones, negative (SM9 INTEGER) placed in valid structures by the harness' encoder must "
          "be refused by every decoder, each next to a valid control; every self-describing container, also with trailing octets, "
-         "offered to all 21 decoders gives an error or the same key. Input-buffer independence: for every decoder of every "
+         "offered to all 21 decoders gives an error or the same key. Rarely combined options: both PBKDF2 identifiers x 8 PRFs x "
+         "both scheme identifiers x every way of building the encrypter, salt / iteration / scrypt parameters across the DER length "
+         "and INTEGER boundaries, a PRF equal to the identifier's DEFAULT read in both encodings. Conflicting redundancy: containers "
+         "re-encoded from the parts of two honest containers (scalar of A next to the point, curve name, master public key, "
+         "certificate or wrapped key of B, also inside encrypted PKCS#8) decode to an error or to the internally consistent key of "
+         "the scalar they hold, SM2 enveloped keys and CFCA blobs only to an error. Input-buffer independence: for every decoder of every "
          "container and key kind (79 decoder x form pairs, all PBES schemes and PEM ciphers in rotation, SM2 enveloped key, "
          "CSRResponse, CFCA blob, CFCA escrow key) the decoded key is re-examined (known-key oracle, Equal, every deterministic encoder) after the "
          "caller reused its container / password buffers for another key and after it zeroised them, a key never touched before "
